@@ -140,7 +140,7 @@ DoEntry(k, e) ==
             LET act == RunEntry(e, Arm(m, f), Val(g), Val(u), Val(v), Val(a), nm)
                 good == IF e = "fail" THEN OutcomeFail(act) ELSE Outcome(act, exp)
             IN /\ ok' = good
-               /\ last' = <<e, f, g, u, v, a, nm, act.s.signal, act.s.err, act.s.on>>
+               /\ last' = <<e, k, f, g, u, v, a, nm, act.s.signal, act.s.err, act.s.on, exp.s.nreq>>
                /\ IF good /\ e # "fail"
                   THEN /\ m' = [Disarm(act.s) EXCEPT !.ref = IF h[k] = 0 THEN Incr(@, act.r) ELSE Decr(Incr(@, act.r), h[k])]
                        /\ h' = [h EXCEPT ![k] = act.r]
